@@ -50,6 +50,65 @@ def write_vc(outdir, name, pc, goal, trace=(), observe=()):
     return fn
 
 
+_qcache = {}
+
+
+def has_quantifier(e):
+    k = e.get_id()
+    if k in _qcache: return _qcache[k]
+    todo = [e]; seen = set(); r = False
+    while todo:
+        x = todo.pop()
+        i = x.get_id()
+        if i in seen: continue
+        seen.add(i)
+        if z3.is_quantifier(x): r = True; break
+        if i in _qcache:
+            if _qcache[i]: r = True; break
+            continue
+        todo.extend(x.children())
+    _qcache[k] = r
+    return r
+
+
+def write_batch(outdir, name, pc, goals, timeout_ms):
+    """one file per exit path.  First the quantifier-free part of the path condition and (check-sat): the COVER -- `unsat` there
+    proves the path dead (sound: dropping hypotheses only makes it easier to satisfy).  Then the rest of the path condition,
+    then push/assert-not-goal/check-sat/pop per goal."""
+    s = z3.Solver()
+    qf = [p for p in pc if not has_quantifier(p)]
+    qn = [p for p in pc if has_quantifier(p)]
+    for p in qf: s.add(p)
+    marker = z3.Bool('cover!marker')
+    s.add(marker)
+    for p in qn: s.add(p)
+    for k, g in enumerate(goals):
+        s.add(z3.Bool('goal!%d' % k) == g)
+    txt = s.to_smt2().replace('(check-sat)\n', '')
+    if '(assert\n cover!marker)' in txt: txt = txt.replace('(assert\n cover!marker)', '(check-sat)', 1)
+    elif '(assert cover!marker)' in txt: txt = txt.replace('(assert cover!marker)', '(check-sat)', 1)
+    else: raise AssertionError('cover marker not found in SMT text')
+    fn = vc_path(outdir, name)
+    with open(fn, 'w') as f:
+        f.write('; batch: %s\n(set-logic ALL)\n(set-option :timeout %d)\n' % (name, timeout_ms))
+        f.write(txt)
+        for k in range(len(goals)):
+            f.write('(push)\n(assert (not goal!%d))\n(check-sat)\n(pop)\n' % k)
+    return fn
+
+
+def run_batch(fn, n_goals, timeout):
+    c = ['z3-new', '-T:%d' % int(timeout * (n_goals + 1) + 5), fn]
+    t0 = time.time()
+    try:
+        p = subprocess.run(c, stdout=subprocess.PIPE, stderr=subprocess.PIPE, text=True, timeout=timeout * (n_goals + 1) + 10)
+        words = [l.strip() for l in p.stdout.splitlines() if l.strip() in ('sat', 'unsat', 'unknown', 'timeout')]
+    except subprocess.TimeoutExpired:
+        words = []
+    words += ['unknown'] * (n_goals + 1 - len(words))
+    return words[0], words[1:n_goals + 1], time.time() - t0
+
+
 def first_word(out):
     for line in out.splitlines():
         line = line.strip()
